@@ -103,47 +103,251 @@ func checkC18(c *Ctx) (string, []string) {
 		}
 	}
 
-	c.Rule("C18.node-function", "N: empty (or nil-headed) sequence ↦ zero hash, singleton ↦ its element, otherwise H($node ⌢ N(left) ⌢ N(right)); Mb hashes a singleton and otherwise is N; T emits N(sibling half) followed by T(own half, rebased index); M = N over the leaf hashes of C; both leaf hashers use the shared $leaf prefix", 10)
-	c.checkCondSet("C18.node-function", K+"N", fn["N"], []string{"(0 == len(p0))", "(1 == len(p0))", "(nil == p0[0])"})
-	half := "((1 + len(p0)) / 2)"
-	c.checkShapes("C18.node-function", K+"N", fn["N"], abbrMap(returnShapes(fn["N"])), map[string][]string{
-		"ret": {K + "zeroHash[:]", "p0[0]", "p1(append(append(append(make([]byte, 0), " + K + "nodePrefix), " + K + "N(p0[:" + half + "], p1)), " + K + "N(p0[" + half + ":], p1)))[:]"},
-	})
-	c.checkCondSet("C18.node-function", K+"Mb", fn["Mb"], []string{"(1 == len(p0))", "(nil != p0[0])"})
-	c.checkShapes("C18.node-function", K+"Mb", fn["Mb"], abbrMap(returnShapes(fn["Mb"])), map[string][]string{"ret": {"*" + K + "N(p0, p1)", "p1(p0[0])"}})
-	uh := "u32(" + half + ")"
-	own := "phi(p0[:" + uh + "] | p0[" + uh + ":])"
-	c.checkEffects("C18.node-function", K+"T", fn["T"], abbrAll(effectShapesOpt(fn["T"], func(n string) bool { return strings.HasPrefix(n, mtPkg) }, false)), []string{
-		"call " + K + "N(" + own + ", p2)",
-		"call " + K + "T(" + own + ", phi((p1 - " + uh + ") | p1), p2)",
-	})
-	// sibling/own halves are opposite: checked structurally on the phis
-	c18Halves(c, fn["T"])
-	c.checkEffects("C18.node-function", K+"M", fn["M"], abbrAll(effectShapesOpt(fn["M"], func(n string) bool { return strings.HasPrefix(n, mtPkg) }, true)), []string{
-		"call " + K + "C(p0, p1)",
-		"call " + K + "N(make([]types.ByteSequence, len(" + K + "C(p0, p1))), p1)",
-		"copy(alloc:types.OpaqueHash[:], " + K + "N(make([]types.ByteSequence, len(" + K + "C(p0, p1))), p1))",
-		"store &make([]types.ByteSequence, len(" + K + "C(p0, p1)))[*] ← " + K + "C(p0, p1)[*][:]",
-	})
-	c.checkEffects("C18.node-function", K+"C", fn["C"], abbrAll(effectShapesOpt(fn["C"], nil, true)), []string{
-		"store &make([]types.OpaqueHash, phi((2 * cyc) | 1))[*] ← " + K + "zeroHash",
-		"store &make([]types.OpaqueHash, phi((2 * cyc) | 1))[*] ← p1(append(append(phi(nil | phi(cyc))[:0], " + K + "leafPrefix), p0[*]))",
-	})
+	c.Rule("C18.node-function", "N: empty (or nil-headed) sequence ↦ zero hash, singleton ↦ its element, otherwise H($node ⌢ N(left) ⌢ N(right)); Mb hashes a singleton and otherwise is N; T emits N(sibling half) and recurses into its own half with the rebased index; M = N over the leaf hashes of C; C hashes $leaf ⌢ v[i] and pads with the zero hash to the next power of two; both leaf hashers use the shared $leaf prefix. Decided on refactoring-tolerant views: helpers are seen through, tests are polarity-free atoms, buffers are flattened concatenations, split points and sizes are named after what they evaluate to", 18)
+	optsFor := func(f *ssa.Function) exprOpts {
+		o := robustOpts
+		o.abstract = c18Abstract(f)
+		return o
+	}
+	H := "⌈|p0|/2⌉"
+	leaves := func(v, h string) string {
+		return "make([]types.ByteSequence, len(" + K + "C(" + v + ", " + h + "))){[*] ← " + K + "C(" + v + ", " + h + ")[*][:]}"
+	}
+	{
+		f, o := fn["N"], optsFor(fn["N"])
+		c.requireAtoms("C18.node-function", K+"N", f, o, []string{"(0 == len(p0))", "(1 == len(p0))", "(nil == p0[0])"})
+		node := "p1(cat(" + K + "nodePrefix, " + K + "N(p0[:" + H + "], p1), " + K + "N(p0[" + H + ":], p1)))"
+		c.requireSet("C18.node-function", K+"N · results", f.Pos(), "N returns", abbrMap(returnShapesO(f, o))["ret"], []string{K + "zeroHash[:]", "p0[0]", node + "[:]"})
+		c.requireSet("C18.node-function", K+"N · hashed", f.Pos(), "N hashes", abbrAll(robustCalls(f, o, func(n string) bool { return n == "p1" })), []string{node})
+	}
+	{
+		f, o := fn["Mb"], optsFor(fn["Mb"])
+		c.requireAtoms("C18.node-function", K+"Mb", f, o, []string{"(1 == len(p0))", "(nil == p0[0])"})
+		c.requireSet("C18.node-function", K+"Mb · results", f.Pos(), "Mb returns", abbrMap(returnShapesO(f, o))["ret"], []string{"*" + K + "N(p0, p1)", "p1(p0[0])"})
+	}
+	{
+		f, o := fn["T"], optsFor(fn["T"])
+		c.requireAtoms("C18.node-function", K+"T", f, o, []string{"(p1 < " + H + ")"})
+		own := "phi(p0[:" + H + "] | p0[" + H + ":])"
+		c.requireSet("C18.node-function", K+"T · calls", f.Pos(), "T's Merkle calls", abbrAll(robustCalls(f, o, func(n string) bool { return strings.HasPrefix(n, "merkle_tree.") })), []string{
+			K + "N(" + own + ", p2)",
+			K + "T(" + own + ", phi((p1 - " + H + ") | p1), p2)",
+		})
+		// sibling/own halves are opposite: checked structurally on the phis
+		c18Halves(c, f)
+	}
+	{
+		f, o := fn["M"], optsFor(fn["M"])
+		c.requireSet("C18.node-function", K+"M · calls", f.Pos(), "M's Merkle calls", abbrAll(robustCalls(f, o, func(n string) bool { return strings.HasPrefix(n, "merkle_tree.") })), []string{
+			K + "C(p0, p1)",
+			K + "N(" + leaves("p0", "p1") + ", p1)",
+		})
+		c18ResultFrom(c, f, fn["N"])
+	}
+	{
+		f, o := fn["C"], optsFor(fn["C"])
+		c.requireSet("C18.node-function", K+"C · hashed", f.Pos(), "C hashes", abbrAll(robustCalls(f, o, func(n string) bool { return n == "p1" })), []string{"p1(cat(" + K + "leafPrefix, p0[*]))"})
+		c18CFill(c, f, o)
+	}
 	// prefixes
 	for g, want := range map[string]string{"nodePrefix": `[]byte("node")`, "leafPrefix": `[]byte("leaf")`} {
 		got := c.globalInit(mtPkg, g)
 		c.Check(got == want, "C18.node-function", K+g, token.NoPos, g+" = "+want, fmt.Sprintf("%s is initialised to %s, GP uses %s", g, got, want))
 	}
 
-	c.Rule("C18.paging", "Jx takes the trace of leaf i·2^x over the constant-depth leaves C(v) and keeps max(0, ⌈log2 max(1,|v|)⌉ − x) entries; Lx hashes exactly the leaves [i·2^x, min(i·2^x + 2^x, |v|)) with the $leaf prefix", 5)
-	jxT := callArgShapes(fn["Jx"], func(ci ssa.CallInstruction) bool { return calleeFunc(ci) == fn["T"] }, 1)
-	c.Check(len(jxT) == 1 && jxT[0] == "((1 << p0) * p2)", "C18.paging", K+"Jx · trace index", fn["Jx"].Pos(), "trace taken at leaf i·2^x", fmt.Sprintf("Jx takes the trace at %v, GP takes it at leaf i·2^x", jxT))
-	jxSeq := callArgShapes(fn["Jx"], func(ci ssa.CallInstruction) bool { return calleeFunc(ci) == fn["T"] }, 0)
-	c.Check(len(jxSeq) == 1 && abbr(jxSeq[0]) == "make([]types.ByteSequence, len("+K+"C(p1, p3)))", "C18.paging", K+"Jx · trace sequence", fn["Jx"].Pos(), "trace over the leaf hashes C(v)", fmt.Sprintf("Jx traces over %v instead of C(v)", jxSeq))
-	c18JxLen(c, fn["Jx"])
-	c18Lx(c, fn["Lx"])
+	c.Rule("C18.paging", "Jx takes the trace of leaf i·2^x (mod 2^32) over the constant-depth leaves C(v) and keeps max(0, ⌈log2 max(1,|v|)⌉ − x) entries; Lx hashes exactly the leaves [i·2^x, min(i·2^x + 2^x, |v|)) with the $leaf prefix. The index and the count are decided by evaluating the expressions over x, i and |v|", 5)
+	{
+		f, o := fn["Jx"], optsFor(fn["Jx"])
+		var tcall *ssa.Call
+		nT := 0
+		allInstrs(f, func(in ssa.Instruction) {
+			if call, ok := in.(*ssa.Call); ok && calleeFunc(call) == fn["T"] {
+				tcall = call
+				nT++
+			}
+		})
+		if tcall == nil || nT != 1 {
+			c.Bad("C18.paging", K+"Jx · trace index", f.Pos(), "Jx does not take exactly one trace T(…) (found %d)", nT)
+		} else {
+			bad := ""
+			for x := int64(0); x <= 40 && bad == ""; x++ {
+				for _, i := range []int64{0, 1, 2, 3, 5, 1<<16 + 1, 1 << 31, 1<<32 - 1} {
+					got, ok := evalInt(tcall.Call.Args[1], intEnv{params: map[ssa.Value]int64{f.Params[0]: x, f.Params[2]: i}}, 0)
+					want := int64(0)
+					if x < 32 {
+						want = int64(uint32(uint64(i) << uint(x)))
+					}
+					if !ok {
+						bad = "trace index " + abbr(exprStr(tcall.Call.Args[1], o)) + " is not a pure function of x and i"
+						break
+					}
+					if got != want {
+						bad = fmt.Sprintf("trace index %s evaluates to %d for x=%d, i=%d; GP takes leaf i·2^x = %d", abbr(exprStr(tcall.Call.Args[1], o)), got, x, i, want)
+						break
+					}
+				}
+			}
+			c.Check(bad == "", "C18.paging", K+"Jx · trace index", tcall.Pos(), "trace taken at leaf i·2^x (mod 2^32) for x = 0..40 and boundary i", bad)
+			seq := abbr(exprStr(tcall.Call.Args[0], o))
+			c.Check(seq == leaves("p1", "p3"), "C18.paging", K+"Jx · trace sequence", tcall.Pos(), "trace over the leaf hashes C(v)", "Jx traces over "+seq+" instead of the leaf hashes C(v)")
+		}
+		c18JxLen(c, f)
+	}
+	c18Lx(c, fn["Lx"], optsFor(fn["Lx"]))
 	return "Binary Merkle mechanisms decided statically: the four functions that divide a sequence (N, T, Ps, PI) use split points that evaluate to ⌈n/2⌉ for every length 0..300 (pure-expression evaluation of each slice bound / index comparison / rebasing term), T's sibling and own halves are complementary; N/Mb/M/C have the GP E.1 arms and operands (empty ↦ H0, singleton, $node/$leaf prefixes); Jx traces leaf i·2^x over C(v) and truncates to max(0, ⌈log2 max(1,|v|)⌉ − x), Lx covers exactly its page.",
-		[]string{"canonical SSA renderer; integer-expression evaluation over len(v) (no execution of program code)", "not decided: hash values vs an independent reference, change-sensitivity, VerifyMerkleProof's fold"}
+		[]string{"canonical SSA renderer with helper see-through; integer-expression evaluation over len(v), x, i (partial evaluation of pure integer code, no program state)", "not decided: hash values vs an independent reference, change-sensitivity, VerifyMerkleProof's fold"}
+}
+
+// c18Abstract names integer sub-expressions after what they evaluate to over
+// the length of the function's sequence parameter: ⌈n/2⌉ and the next power of two.
+func c18Abstract(f *ssa.Function) func(ssa.Value) (string, bool) {
+	var seq ssa.Value
+	pi := 0
+	for i, p := range f.Params {
+		if _, ok := p.Type().Underlying().(*types.Slice); ok {
+			seq, pi = p, i
+			break
+		}
+	}
+	memo := map[ssa.Value]string{}
+	return func(v ssa.Value) (string, bool) {
+		if seq == nil || !isIntegerT(v.Type()) {
+			return "", false
+		}
+		switch v.(type) {
+		case *ssa.Const, *ssa.Parameter:
+			return "", false
+		}
+		if s, ok := memo[v]; ok {
+			return s, s != ""
+		}
+		half, pow := true, true
+		for n := int64(0); n <= 40 && (half || pow); n++ {
+			got, ok := evalInt(v, intEnv{lens: map[ssa.Value]int64{seq: n}}, 0)
+			if !ok {
+				half, pow = false, false
+				break
+			}
+			if got != (n+1)/2 {
+				half = false
+			}
+			p2 := int64(1)
+			for p2 < n {
+				p2 *= 2
+			}
+			if got != p2 {
+				pow = false
+			}
+		}
+		s := ""
+		if half {
+			s = fmt.Sprintf("⌈|p%d|/2⌉", pi)
+		} else if pow {
+			s = fmt.Sprintf("pow2⌈|p%d|⌉", pi)
+		}
+		memo[v] = s
+		return s, s != ""
+	}
+}
+
+// c18ResultFrom: M's result is the value of its N call (copied or converted into the returned hash).
+func c18ResultFrom(c *Ctx, f, n *ssa.Function) {
+	ok := false
+	allInstrs(f, func(in ssa.Instruction) {
+		r, isR := in.(*ssa.Return)
+		if !isR || len(r.Results) != 1 {
+			return
+		}
+		if flowsFromCall(r.Results[0], n, map[ssa.Value]bool{}, 0) {
+			ok = true
+		}
+	})
+	c.Check(ok, "C18.node-function", "merkle_tree.M · result", f.Pos(), "the returned hash is (a copy of) N's result", "M's returned hash does not come from its N call")
+}
+
+// flowsFromCall: v is the result of a call to callee, possibly converted,
+// dereferenced, or copied into a local array that is then loaded.
+func flowsFromCall(v ssa.Value, callee *ssa.Function, seen map[ssa.Value]bool, d int) bool {
+	if v == nil || seen[v] || d > 12 {
+		return false
+	}
+	seen[v] = true
+	switch x := v.(type) {
+	case *ssa.Call:
+		return x.Call.StaticCallee() == callee
+	case *ssa.ChangeType:
+		return flowsFromCall(x.X, callee, seen, d+1)
+	case *ssa.Convert:
+		return flowsFromCall(x.X, callee, seen, d+1)
+	case *ssa.SliceToArrayPointer:
+		return flowsFromCall(x.X, callee, seen, d+1)
+	case *ssa.Phi:
+		for _, e := range x.Edges {
+			if !flowsFromCall(e, callee, seen, d+1) {
+				return false
+			}
+		}
+		return len(x.Edges) > 0
+	case *ssa.UnOp:
+		if x.Op != token.MUL {
+			return false
+		}
+		if a, ok := x.X.(*ssa.Alloc); ok {
+			// local array filled by copy(a[:], call) or a single store
+			for _, r := range *a.Referrers() {
+				switch y := r.(type) {
+				case *ssa.Store:
+					if y.Addr == ssa.Value(a) && flowsFromCall(y.Val, callee, seen, d+1) {
+						return true
+					}
+				case *ssa.Slice:
+					for _, r2 := range *y.Referrers() {
+						if ci, ok := r2.(ssa.CallInstruction); ok {
+							if b, isB := ci.Common().Value.(*ssa.Builtin); isB && b.Name() == "copy" && ci.Common().Args[0] == ssa.Value(y) && flowsFromCall(ci.Common().Args[1], callee, seen, d+1) {
+								return true
+							}
+						}
+					}
+				}
+			}
+			return false
+		}
+		return flowsFromCall(x.X, callee, seen, d+1)
+	}
+	return false
+}
+
+// c18CFill: C returns a fresh slice of pow2⌈|v|⌉ entries whose fills are the
+// leaf hashes and the zero hash, the zero hash only at positions >= |v|.
+func c18CFill(c *Ctx, f *ssa.Function, o exprOpts) {
+	K := "merkle_tree."
+	var ms *ssa.MakeSlice
+	allInstrs(f, func(in ssa.Instruction) {
+		if r, ok := in.(*ssa.Return); ok && len(r.Results) == 1 {
+			if m, ok := stripConv(r.Results[0]).(*ssa.MakeSlice); ok {
+				ms = m
+			}
+		}
+	})
+	if ms == nil {
+		c.Bad("C18.node-function", K+"C · result", f.Pos(), "C does not return a freshly made slice")
+		return
+	}
+	sz := abbr(exprStr(ms.Len, o))
+	c.Check(sz == "pow2⌈|p0|⌉", "C18.node-function", K+"C · size", ms.Pos(), "the result has pow2⌈|v|⌉ entries (evaluated for |v| = 0..40)", "the result has "+sz+" entries, GP pads to the next power of two")
+	r := &renderer{o: o, onStack: map[ssa.Value]bool{}}
+	r.o.depth = 14
+	vals := map[string]bool{}
+	for _, fl := range r.fillsOf(ms, 0) {
+		if k := strings.Index(fl, "← "); k >= 0 {
+			vals[abbr(fl[k+len("← "):])] = true
+		}
+	}
+	var vs []string
+	for s := range vals {
+		vs = append(vs, s)
+	}
+	c.requireSet("C18.node-function", K+"C · entries", ms.Pos(), "entries are filled with", vs, []string{K + "zeroHash", "p1(cat(" + K + "leafPrefix, p0[*]))"})
 }
 
 // checkCondSet: the set of branch conditions of f equals want.
@@ -230,7 +434,7 @@ func c18JxLen(c *Ctx, f *ssa.Function) {
 	var ms *ssa.MakeSlice
 	allInstrs(f, func(in ssa.Instruction) {
 		if r, ok := in.(*ssa.Return); ok {
-			if m, ok := r.Results[0].(*ssa.MakeSlice); ok {
+			if m, ok := stripConv(r.Results[0]).(*ssa.MakeSlice); ok {
 				ms = m
 			}
 		}
@@ -239,38 +443,96 @@ func c18JxLen(c *Ctx, f *ssa.Function) {
 		c.Bad("C18.paging", "merkle_tree.Jx · kept entries", f.Pos(), "returned slice is not a fresh make")
 		return
 	}
-	s := abbr(exprStr(ms.Len, shapeOpts))
-	// max(0, (log - int(x))) where log is the loop counter of `for (1<<log) < max(1,len(v))`
-	conds := abbrAll(condShapes(f))
-	hasLoop := false
-	for _, cd := range conds {
-		if cd == "(* < max(1, len(p1)))" {
-			hasLoop = true
+	bad := ""
+	maxN := c.Deep(70, 1100)
+	for n := int64(0); n <= maxN && bad == ""; n++ {
+		lg := int64(0)
+		for (int64(1) << uint(lg)) < max(1, n) {
+			lg++
+		}
+		for x := int64(0); x <= 12; x++ {
+			got, ok := evalInt(ms.Len, intEnv{lens: map[ssa.Value]int64{f.Params[1]: n}, params: map[ssa.Value]int64{f.Params[0]: x}}, 0)
+			if !ok {
+				bad = "kept-entry count " + abbr(exprStr(ms.Len, shapeOpts)) + " is not a pure function of |v| and x"
+				break
+			}
+			if want := max(0, lg-x); got != want {
+				bad = fmt.Sprintf("kept-entry count %s evaluates to %d for |v|=%d, x=%d; GP keeps max(0, ⌈log2 max(1,|v|)⌉ − x) = %d", abbr(exprStr(ms.Len, shapeOpts)), got, n, x, want)
+				break
+			}
 		}
 	}
-	// the compared quantity must be 1 << counter
-	okShift := false
-	allInstrs(f, func(in ssa.Instruction) {
-		if b, ok := in.(*ssa.BinOp); ok && b.Op == token.LSS {
-			if sh, ok := stripConv(b.X).(*ssa.BinOp); ok && sh.Op == token.SHL {
-				if one, ok := constInt(sh.X); ok && one == 1 {
-					if p, ok := stripConv(sh.Y).(*ssa.Phi); ok {
-						if init, ok := constInt(p.Edges[0]); ok && init == 0 {
-							okShift = true
-						}
-					}
-				}
+	c.Check(bad == "", "C18.paging", "merkle_tree.Jx · kept entries", ms.Pos(), fmt.Sprintf("keeps max(0, ⌈log2 max(1,|v|)⌉ − x) entries (evaluated for |v| = 0..%d, x = 0..12)", maxN), bad)
+}
+
+// c18Lx: the page loop runs idx over [i·2^x, min(i·2^x + 2^x, |v|)) and hashes $leaf ⌢ v[idx].
+func c18Lx(c *Ctx, f *ssa.Function, o exprOpts) {
+	K := "merkle_tree."
+	// the loop variable: the index used for v[…] inside the hashed buffer
+	hashed := abbrAll(robustCalls(f, o, func(n string) bool { return n == "p3" }))
+	var idxPhi *ssa.Phi
+	visitWithHelpers(f, o, func(g *ssa.Function, subst map[ssa.Value]string, in ssa.Instruction) {
+		if g != f {
+			return
+		}
+		if ia, ok := in.(*ssa.IndexAddr); ok && ia.X == ssa.Value(f.Params[1]) {
+			if p, ok := stripConv(ia.Index).(*ssa.Phi); ok {
+				idxPhi = p
 			}
 		}
 	})
-	c.Check(s == "max(0, (* - int(p0)))" && hasLoop && okShift, "C18.paging", "merkle_tree.Jx · kept entries", ms.Pos(), "keeps max(0, ⌈log2 max(1,|v|)⌉ − x) entries", fmt.Sprintf("kept-entry count is %s with loop conditions %v", s, conds))
-}
-
-func c18Lx(c *Ctx, f *ssa.Function) {
-	conds := abbrAll(condShapes(f))
-	want := "(phi((1 + cyc) | (p2 * u32((1 << p0)))) < min(((p2 * u32((1 << p0))) + u32((1 << p0))), u32(len(p1))))"
-	c.Check(len(conds) == 1 && conds[0] == want, "C18.paging", "merkle_tree.Lx · page range", f.Pos(), "iterates idx from i·2^x while idx < min(i·2^x + 2^x, |v|)", fmt.Sprintf("page loop is %v", conds))
-	rs := abbrMap(returnShapes(f))
-	wantR := "⊕(make([]types.OpaqueHash, 0); [p3(append(append(phi(cyc | nil)[:0], merkle_tree.leafPrefix), p1[phi((1 + cyc) | (p2 * u32((1 << p0))))]))][:])"
-	c.Check(len(rs["ret"]) == 1 && rs["ret"][0] == wantR, "C18.paging", "merkle_tree.Lx · leaves", f.Pos(), "appends H($leaf ⌢ v[idx]) for each idx of the page", fmt.Sprintf("Lx returns %v", rs["ret"]))
+	if idxPhi == nil || len(hashed) != 1 {
+		c.Bad("C18.paging", K+"Lx · leaves", f.Pos(), "Lx does not hash one $leaf ⌢ v[idx] per loop iteration (hash calls: %v)", hashed)
+		return
+	}
+	idxS := abbr(exprStr(idxPhi, o))
+	c.Check(hashed[0] == "p3(cat("+K+"leafPrefix, p1["+idxS+"]))", "C18.paging", K+"Lx · leaves", f.Pos(), "hashes $leaf ⌢ v[idx] for each idx of the page", "Lx hashes "+hashed[0])
+	// page range: start value of idx and the loop bound, evaluated
+	var start ssa.Value
+	for k, e := range idxPhi.Edges {
+		if !idxPhi.Block().Dominates(idxPhi.Block().Preds[k]) {
+			start = e
+		}
+	}
+	var bound ssa.Value
+	var strict bool
+	if ifi, ok := idxPhi.Block().Instrs[len(idxPhi.Block().Instrs)-1].(*ssa.If); ok {
+		if bo, ok := ifi.Cond.(*ssa.BinOp); ok {
+			switch {
+			case bo.Op == token.LSS && stripConv(bo.X) == ssa.Value(idxPhi):
+				bound, strict = bo.Y, true
+			case bo.Op == token.GTR && stripConv(bo.Y) == ssa.Value(idxPhi):
+				bound, strict = bo.X, true
+			}
+		}
+	}
+	if start == nil || bound == nil || !strict {
+		c.Bad("C18.paging", K+"Lx · page range", f.Pos(), "page loop `for idx := start; idx < end` not found")
+		return
+	}
+	bad := ""
+	for x := int64(0); x <= 6 && bad == ""; x++ {
+		for i := int64(0); i <= 5 && bad == ""; i++ {
+			for n := int64(0); n <= 70; n++ {
+				env := intEnv{lens: map[ssa.Value]int64{f.Params[1]: n}, params: map[ssa.Value]int64{f.Params[0]: x, f.Params[2]: i}}
+				s, ok1 := evalInt(start, env, 0)
+				e, ok2 := evalInt(bound, env, 0)
+				if !ok1 || !ok2 {
+					bad = "page bounds are not pure functions of x, i and |v|"
+					break
+				}
+				ws := i << uint(x)
+				we := min(ws+(1<<uint(x)), n)
+				if s != ws || (ws < we && e != we) || (ws >= we && e > s) {
+					bad = fmt.Sprintf("page loop runs [%d, %d) for x=%d, i=%d, |v|=%d; GP page is [%d, %d)", s, e, x, i, n, ws, we)
+					break
+				}
+			}
+		}
+	}
+	c.Check(bad == "", "C18.paging", K+"Lx · page range", f.Pos(), "iterates idx over [i·2^x, min(i·2^x + 2^x, |v|)) (evaluated for x = 0..6, i = 0..5, |v| = 0..70)", bad)
+	// every iteration contributes exactly its hash to the result
+	rs := abbrMap(returnShapesO(f, o))
+	wantR := "⊕(make([]types.OpaqueHash, 0); [" + hashed[0] + "][:])"
+	c.Check(len(rs["ret"]) == 1 && rs["ret"][0] == wantR, "C18.paging", K+"Lx · result", f.Pos(), "appends each page leaf hash in order", fmt.Sprintf("Lx returns %v", rs["ret"]))
 }
